@@ -160,7 +160,21 @@ Built build(const model::MLib& m) {
                 Array<Vec2> pts = {};
                 for (size_t i = 1; i < mp.spine.size(); i++)
                     pts.append(Vec2{user(m, mp.spine[i].x), user(m, mp.spine[i].y)});
-                if (pts.count > 0) p->segment(pts, NULL, NULL, false);
+                for (uint64_t e = 0; e < ne; e++) {
+                    // (set before the segments are added: the bends are built as the centre line grows)
+                    if (mp.bend > 0) {
+                        p->elements[e].bend_type = BendType::Circular;
+                        p->elements[e].bend_radius = user(m, mp.bend);
+                    }
+                }
+                if (pts.count > 0) {
+                    if (!mp.simple && mp.taper > 0) {
+                        std::vector<double> w(ne, 2 * user(m, mp.taper));
+                        p->segment(pts, w.data(), NULL, false);  // widths change linearly towards these
+                    } else {
+                        p->segment(pts, NULL, NULL, false);
+                    }
+                }
                 pts.clear();
                 p->simple_path = mp.simple;
                 p->scale_width = mp.scale_width;
@@ -309,6 +323,32 @@ std::vector<std::vector<canon::IPt>> robust_centres(const model::MLib& m, const 
             out.push_back(v);
         }
         pts.clear();
+    }
+    b.destroy();
+    return out;
+}
+
+std::vector<std::vector<canon::IPt>> flex_centres(const model::MLib& m, const model::MPath& p, bool expand) {
+    std::vector<std::vector<canon::IPt>> out;
+    Built b = build(single_path_lib(m, p));
+    Cell* c = b.lib.cell_array[0];
+    if (c->flexpath_array.count) {
+        FlexPath* fp = c->flexpath_array[0];
+        // (to_gds first drops points closer than the tolerance, 0.01 grid steps here: nothing in these models)
+        double scaling = m.unit / m.precision;
+        std::vector<model::Pt> offs = expand ? canon::rep_offsets(p.rep) : std::vector<model::Pt>{model::Pt{0, 0}};
+        for (uint64_t e = 0; e < fp->num_elements; e++) {
+            Array<Vec2> pts = {};
+            fp->element_center(fp->elements + e, pts);
+            for (auto& off : offs) {
+                double ox = user(m, off.x), oy = user(m, off.y);
+                std::vector<canon::IPt> v;
+                for (uint64_t k = 0; k < pts.count; k++)
+                    v.push_back(canon::IPt{(int64_t)lround((pts[k].x + ox) * scaling), (int64_t)lround((pts[k].y + oy) * scaling)});
+                out.push_back(v);
+            }
+            pts.clear();
+        }
     }
     b.destroy();
     return out;
